@@ -951,8 +951,19 @@ def pz(n):
     return str(n) if n >= 0 else '(%d)' % n
 
 
-def pe(e):
+BOOL_TAGS = ('true', 'false', 'ltb', 'eqb', 'negb', 'andb', 'orb')
+
+
+def pe(e, names=None):
+    """print an expression; `names` maps shared subtrees to let-bound names"""
+    if names and e in names:
+        return names[e]
+    return _pe(e, names)
+
+
+def _pe(e, names):
     t = e[0]
+    r = lambda x: pe(x, names)
     if t == 'var':
         return e[1]
     if t == 'lit':
@@ -961,32 +972,59 @@ def pe(e):
             return '(gofZ %s)' % pz(v.numerator)
         return '((gofZ %s) / (gofZ %s))' % (pz(v.numerator), pz(v.denominator))
     if t in ('add', 'sub', 'mul', 'div'):
-        return '(%s %s %s)' % (pe(e[1]), {'add': '+', 'sub': '-', 'mul': '*', 'div': '/'}[t],
-                               pe(e[2]))
+        return '(%s %s %s)' % (r(e[1]), {'add': '+', 'sub': '-', 'mul': '*', 'div': '/'}[t],
+                               r(e[2]))
     if t == 'opp':
-        return '(- %s)' % pe(e[1])
+        return '(- %s)' % r(e[1])
     if t in ('sqrt', 'cos', 'sin'):
-        return '(g%s %s)' % (t, pe(e[1]))
+        return '(g%s %s)' % (t, r(e[1]))
     if t == 'atan2':
-        return '(gatan2 %s %s)' % (pe(e[1]), pe(e[2]))
+        return '(gatan2 %s %s)' % (r(e[1]), r(e[2]))
     if t == 'ite':
-        return '(if %s then %s else %s)' % (pb(e[1]), pe(e[2]), pe(e[3]))
-    raise Unsupported('internal: expression tag %s' % t)
-
-
-def pb(e):
-    t = e[0]
+        return '(if %s then %s else %s)' % (r(e[1]), r(e[2]), r(e[3]))
     if t in ('true', 'false'):
         return t
     if t in ('ltb', 'eqb'):
-        return '(g%s %s %s)' % (t, pe(e[1]), pe(e[2]))
+        return '(g%s %s %s)' % (t, r(e[1]), r(e[2]))
     if t == 'negb':
-        return '(negb %s)' % pb(e[1])
+        return '(negb %s)' % r(e[1])
     if t in ('andb', 'orb'):
-        return '(%s %s %s)' % (t, pb(e[1]), pb(e[2]))
-    if t == 'ite':
-        return '(if %s then %s else %s)' % (pb(e[1]), pb(e[2]), pb(e[3]))
-    raise Unsupported('internal: condition tag %s' % t)
+        return '(%s %s %s)' % (t, r(e[1]), r(e[2]))
+    raise Unsupported('internal: expression tag %s' % t)
+
+
+pb = pe
+
+
+def with_lets(e):
+    """Coq text of e in which every compound subexpression that occurs more
+    than once is bound by a `let` (cosmetic: the term is the same after zeta)"""
+    count, size, order = {}, {}, []
+
+    def walk(x):
+        if x[0] in ('var', 'lit', 'true', 'false'):
+            size[x] = 1
+            return
+        if x in count:
+            count[x] += 1
+            return
+        count[x] = 1
+        n = 1
+        for y in x[1:]:
+            if isinstance(y, tuple):
+                walk(y)
+                n += size[y]
+        size[x] = n
+        order.append(x)                 # children before parents
+
+    walk(e)
+    names, lets = {}, []
+    for x in order:
+        if count[x] >= 2 and size[x] >= 4:
+            nm = 't%d' % (len(names) + 1)
+            lets.append('let %s := %s in' % (nm, _pe(x, names)))
+            names[x] = nm
+    return ' '.join(lets + [pe(e, names)])
 
 
 def coq_name(key):
@@ -1007,7 +1045,7 @@ def wrap(s, indent='    ', width=96):
         else:
             line = w if not line else line + ' ' + w
     out.append(line)
-    return '\n'.join(out)
+    return '\n'.join(x for x in out if x.strip())
 
 
 HEADER = '''(* GENERATED by harness/pymath2coq.py from desper/math.py -- DO NOT EDIT.
@@ -1054,12 +1092,12 @@ def emit(mod, refused):
             for k, it in enumerate(items):
                 en = '%s_%d' % (cn, k) if isinstance(out, Tup) else cn + '_s'
                 ents.append(en)
-                body.append(wrap('Definition %s %s : T :=\n  %s.' % (en, head, pe(expr_of(it)))))
+                body.append(wrap('Definition %s %s : T :=\n  %s.' % (en, head, with_lets(expr_of(it)))))
             has_warn = warned is not False
             wn = cn + '_warn'
             if has_warn:
                 body.append(wrap('Definition %s %s : bool :=\n  %s.' % (
-                    wn, head, pb(bexpr_of(warned)))))
+                    wn, head, with_lets(bexpr_of(warned)))))
             # the method on tuples
             tb, lets, targs = [], [], []
             for i, (sh, ns) in enumerate(params):
